@@ -103,11 +103,20 @@ func bigHistory(r *kit.Rng, backend string) *c06.History {
 	if r.Chance(1, 4) {
 		ccs = []string{"01", "ff", strings.Repeat("78", 40)}
 	}
+	if backend == "mem" && r.Chance(1, 5) {
+		// cache keys pKey ++ cCols of 65530, 65531 and 65532 bytes: the longest under which the mark fits a
+		// fastcache chunk, the one under which only "known missing" would fit (finding F26b), and one under
+		// which nothing fits (bbolt refuses keys that long)
+		ccs = []string{fmt.Sprintf("%02x*%d", 1+r.Intn(200), cacheMaxEntry-2-len(pk)/2), fmt.Sprintf("%02x*%d", 1+r.Intn(200), cacheMaxEntry-1-len(pk)/2), fmt.Sprintf("%02x*%d", 1+r.Intn(200), cacheMaxEntry-len(pk)/2)}
+	}
 	nb := 0
 	val := func(cc string) string {
 		nb++
 		b := fmt.Sprintf("%02x", 1+(nb*37)%250)
-		boundary := cacheMaxEntry - 8 - len(pk)/2 - len(cc)/2 // the smallest value length that is marked
+		boundary := cacheMaxEntry - 8 - len(pk)/2 - len(c06.Unhex(cc)) // the smallest value length that is marked
+		if boundary < 2 { // a key so long that every value is marked (or nothing is cached at all)
+			return kit.Pick(r, []string{"", "7631", b})
+		}
 		switch r.Intn(10) {
 		case 0, 1:
 			return kit.Pick(r, []string{"", "7631", b})
